@@ -152,8 +152,9 @@ func cbmClusterChanged(c *Ctx, id string) {
 }
 
 // cbmMonitorRound: the tail of a monitor round as a path language, plus the per-instance reader.
-//   tail:   isClusterChanged? — no → end | yes → updateIndex(filtered, index CAS) → ok: rebalance(filtered) | CAS mismatch: monitor() | other: end
-//   reader: Get(id) → key-not-found: skipped | other error: panic | parse error: panic | alive: instances[i] ← instance | not alive: skipped; Done once
+//
+//	tail:   isClusterChanged? — no → end | yes → updateIndex(filtered, index CAS) → ok: rebalance(filtered) | CAS mismatch: monitor() | other: end
+//	reader: Get(id) → key-not-found: skipped | other error: panic | parse error: panic | alive: instances[i] ← instance | not alive: skipped; Done once
 func cbmMonitorRound(c *Ctx, id string) {
 	w := c.W
 	mon := w.Method("couchbase", "cbMembership", "monitor")
